@@ -67,7 +67,7 @@ def database():
         od = min(o, dd) + max(o, dd)
         cur.execute(
             'INSERT INTO flights (id, carrier, flight_number, origin, destination, day_of_week_mask, departure_time, arrival_time, arrival_day_offset, service_type, aircraft_type, engine_type, distance, seat_capacity, effective_from, effective_to, number_of_flights, od_pair) VALUES (?,?,?,?,?,?,?,?,?,?,?,?,?,?,?,?,?,?)',
-            (100 + fi, 'XX', str(fi), aid[o], aid[dd], 127, minute, minute, 0, svc, ac, '', float(dist), seats, '2019-03-04', '2019-03-17', len(days), od),
+            (100 + fi, 'XX', str(fi), aid[o], aid[dd], 127, minute, minute, 0, svc, ac, '', float(dist) * DIST_UNIT, seats, '2019-03-04', '2019-03-17', len(days), od),
         )
         for day in days:
             rows.append((fi, day, T0 + (day * 1440 + minute) * 60))
@@ -83,14 +83,20 @@ def database():
     return _st['db'], ids
 
 
+# Query.tla DistanceUnit: the specification's distances are in statute miles, the database (like the OAG import) holds
+# kilometres = miles x 1.609344 - real, hardly ever integral - and so are the limits of a filter: a flight whose distance
+# EQUALS a limit is selected
+DIST_UNIT = 1.609344
+
+
 def build_filter(f):
     from AEIC.missions import BoundingBox, Filter
 
     kw = {}
     if f['dist'][0] > 0:
-        kw['min_distance'] = f['dist'][0]
+        kw['min_distance'] = f['dist'][0] * DIST_UNIT
     if f['dist'][1] < 9999:
-        kw['max_distance'] = f['dist'][1]
+        kw['max_distance'] = f['dist'][1] * DIST_UNIT
     if f['seats'][0] > 0:
         kw['min_seat_capacity'] = f['seats'][0]
     if f['seats'][1] < 9999:
